@@ -50,8 +50,8 @@ MANIFEST = {
             'the memmap contract alone. Other formats are not encoded.',
 }
 
-NAMES = ['offset', 'date_time_block_size', 'spc_1_lay_block_size',
-         'data_block_size', 'ntimes']
+NAMES = ['nspec', 'nx', 'ny', 'nz', 'offset', 'date_time_block_size',
+         'spc_1_lay_block_size', 'data_block_size', 'ntimes']
 
 
 class FakeMap(object):
@@ -59,14 +59,40 @@ class FakeMap(object):
         self.dtype, self.size = dtype, size
 
 
+def header_maps(holder, lay):
+    """what the reader's header memmaps hold for a file of the reference
+    layout: real numpy structured arrays (real dtypes of the reader) filled
+    with the layout's header values; the species and cell headers are only
+    used for their sizes"""
+    g = lambda n: getattr(holder, '_uamiv__' + n)  # noqa
+    me = type('S', (), {})()
+    eh = np.zeros(1, g('emiss_hdr_fmt'))
+    eh['name'][0, :, :] = b' '
+    eh['name'][0, :, 0] = np.array(lay.fname.ljust(10), dtype='c')
+    eh['note'][0, :, :] = b' '
+    eh['nspec'] = lay.nspec
+    eh['SPAD'] = eh['EPAD'] = eh.dtype.itemsize - 8
+    gh = np.zeros(1, g('grid_hdr_fmt'))
+    gh['nx'], gh['ny'], gh['nz'] = int(lay.nx), int(lay.ny), lay.nz
+    gh['SPAD'] = gh['EPAD'] = gh.dtype.itemsize - 8
+    me._uamiv__emiss_hdr = eh
+    me._uamiv__grid_hdr = gh
+    me._uamiv__cell_hdr = FakeMap(g('cell_hdr_fmt'), 1)
+    me._uamiv__spc_hdr = FakeMap(g('spc_fmt'), lay.nspec)
+    return me
+
+
 class CutUamiv(Obligation):
     mode = 'int'
     validate_paths = 6
     stubs = ('np.memmap (documented contract)',)
 
-    def __init__(self, nspec, nz, ny, nx, T):
+    def __init__(self, nspec, nz, ny, nx, T, fname='AVERAGE'):
         self.p = (nspec, nz, ny, nx, T)
+        self.fname = fname.ljust(10)
         self.name = 'cut-uamiv[nspec=%d,nz=%d,ny=%d,nx=%d,T=%s]' % self.p
+        if fname != 'AVERAGE':
+            self.name = self.name[:-1] + ',%s]' % fname
         self.bounds = {'nspec': nspec, 'nz': nz, 'ny': ny, 'nx': nx, 'T': T,
                        'L': 'unbounded in [H, full)'}
         self._kernel = None
@@ -78,7 +104,7 @@ class CutUamiv(Obligation):
             run, info = loader.slice_kernel(
                 'PseudoNetCDF.camxfiles.uamiv.Memmap',
                 'uamiv._uamiv__readheader'.replace('_uamiv__', '__'), NAMES,
-                space=sp)
+                space=sp, provided=['self', 'size'])
             holder = type('S', (), {})()
             mm.uamiv._make_header_fmt(holder, '>')
             self._kernel = (run, info, holder, sp)
@@ -89,7 +115,7 @@ class CutUamiv(Obligation):
     def _layout(self, T=None):
         nspec, nz, ny, nx, T0 = self.p
         lay = layouts.UamivLayout(nspec, nz, 1, nx * ny, nx, ny, 2001, 0, 1,
-                                  24)
+                                  24, name=self.fname)
         lay.T = T if T is not None else T0
         lay.length = lay.H + lay.T * lay.B
         return lay
@@ -103,15 +129,9 @@ class CutUamiv(Obligation):
         lay = self._layout(T)
         L = ctx.int('L', lay.H)
         ctx.assume(symx._b(L <= lay.length - 1), check=False)
-        me = type('S', (), {})()
-        g = lambda n: getattr(holder, '_uamiv__' + n)  # noqa
-        me._uamiv__emiss_hdr = FakeMap(g('emiss_hdr_fmt'), 1)
-        me._uamiv__grid_hdr = FakeMap(g('grid_hdr_fmt'), 1)
-        me._uamiv__cell_hdr = FakeMap(g('cell_hdr_fmt'), 1)
-        me._uamiv__spc_hdr = FakeMap(g('spc_fmt'), nspec)
+        me = header_maps(holder, lay)
         env = dict(sp.twin('PseudoNetCDF.camxfiles.uamiv.Memmap').__dict__)
-        env.update({'self': me, 'nx': nx, 'ny': ny, 'nz': nz, 'nspec': nspec,
-                    'size': L})
+        env.update({'self': me, 'size': L})
         raised = None
         try:
             out = run(env)
@@ -143,7 +163,7 @@ class CutUamiv(Obligation):
         if T is None:
             T = int(frac_of(inputs.get('T', 2)))
         lay = layouts.UamivLayout(nspec, nz, T, nx * ny, nx, ny, 2001, 0, 1,
-                                  24)
+                                  24, name=self.fname)
         L = int(frac_of(inputs.get('L', lay.H)))
         viol = {}
         d = tempfile.mkdtemp(prefix='verif_c14_')
@@ -207,4 +227,10 @@ def obligations(tier):
     # unbounded number of steps (multi-MB files): T symbolic
     obs.append(CutUamiv(1, 1, 1, 1, None))
     obs.append(CutUamiv(2, 1, 1, 2, None))
+    # the other file kinds of the same layout (name field of the header)
+    obs.append(CutUamiv(1, 2, 2, 1, 3, 'EMISSIONS'))
+    obs.append(CutUamiv(2, 1, 1, 2, 2, 'AIRQUALITY'))
+    if tier == 'thorough':
+        obs.append(CutUamiv(1, 5, 1, 5, 2, 'EMISSIONS'))
+        obs.append(CutUamiv(2, 3, 2, 2, 2, 'INSTANT'))
     return obs
